@@ -24,6 +24,8 @@ func (n *Nodis) GeoAdd(key string, members ...*GeoMember) int64 {
 		for _, member := range members {
 			v += meta.value.(*zset.SortedSet).ZAdd(member.Member, float64(member.Hash()))
 		}
+		// the change has to reach the storage and the clients watching the key, as for ZADD
+		n.signalModifiedKey(key, meta)
 		return nil
 	})
 	return v
@@ -40,6 +42,7 @@ func (n *Nodis) GeoAddXX(key string, members ...*GeoMember) int64 {
 		for _, member := range members {
 			v += meta.value.(*zset.SortedSet).ZAddXX(member.Member, float64(member.Hash()))
 		}
+		n.signalModifiedKey(key, meta)
 		return nil
 	})
 	return v
